@@ -618,6 +618,9 @@ def taint_configs():
         "no_sink_rules": ([SRC()], "empty"),
         "rules_name_other_functions": ([SRC("nosuchsource"), SNK("nosuchsink")], "empty"),
         "rules_for_another_language": ([SRC(lang="java"), SNK(lang="java")], "empty"),
+        # C units: no rule group written for javascript / csharp / typescript may apply although their names contain "c"
+        "c_unit_rules_for_languages_containing_c": ([SRC(lang="javascript"), SNK(lang="javascript"), SRC(lang="csharp"), SNK(lang="typescript")], "empty"),
+        "c_unit_rules_for_c": ([SRC(lang="c"), SNK(lang="c")], None),
         "source_rule_restricted_to_unit": ([SRC(unit_name="t_copy.py"), SNK()], None),
         "sink_rule_restricted_to_unit": ([SRC(), SNK(unit_name="t_binop.py")], None),
         "source_rule_restricted_to_line": ([SRC(line_num=2), SNK()], None),
@@ -653,3 +656,13 @@ def family_taint_justified():
     add("j_global", ["set_g()", "sink(G)", "return 0"], helpers="G = 0\ndef set_g():\n    global G\n    G = source()\n")
     add("j_inp_to_out", ["t = inp(0)", "out(t)", "sink(a)", "return 0"])
     return F + N + X
+
+
+def family_taint_c():
+    """C renderings for the rule-language configurations of C11 (entry rule names f)"""
+    P = []
+    for name, body in [("c_direct", "    int t = source();\n    sink(t);\n    return 0;\n"),
+                       ("c_copy", "    int t = source();\n    int u = t;\n    sink(u);\n    return 0;\n"),
+                       ("c_other_variable", "    int t = source();\n    int v = 5;\n    sink(v);\n    return t;\n")]:
+        P.append(dict(name=name, family="F-taint-c", src="int f(int a, int b, int c) {\n" + body + "}\n", file=name + ".c", lang="c", bounds={}, known=None))
+    return P
